@@ -33,6 +33,27 @@ Extensions (additive; used by specs_geodesy, none changes the output of older sp
   expressions: == !=, np.ones/zeros/empty (shape glue), np.clip, np.sign, np.sum(<tuple expr>, axis=1),
               np.logical_and/or/not, ~m, np.isnan, abs(), any()/all(), `.copy()`, `.astype(float)` (identity: the model has one real / binary64 type)
 
+Spelling variants (see tools/py2lean/normalize.py and /verif/notes/translator.md; the justification of every rule is there):
+  before translation the function is normalised (gen_all.py calls normalize.prepare_function): numpy / constants /
+  own functions reached through aliases -> canonical names; np.square, np.multiply, np.divide, np.add, np.subtract,
+  np.negative, np.power(x, <int literal>), np.less/greater/…/equal -> operators; reductions' positional axis -> `axis=`,
+  `axis=None` dropped; early returns / guard clauses -> if/else with a result variable `ret_` (returns inside loops stay
+  refusals); `for v in (<literal tuple>)` unrolled; calls of module-level helper functions that the spec does not name
+  are expanded in place (locals renamed `<name>_h<k>`; recursion, closures, side effects refused), listed in
+  gen_report.json under "auto_helpers".
+  inferred by the translator itself:
+  shape-typed locals  a local built only from .shape/.ndim/.size/len()/np.shape()/ints/tuples/+ - * // of such (also by
+                      a loop of .append) is skipped; it may only feed reshape / np.ones / np.zeros / other shape
+                      expressions — used as a number it is a Refusal, and a number used as a reshape argument is too
+  static flags        `flag = np.all(np.isreal(x))` / `flag = a is None and …` assigned once: decided like the inlined test
+  scalar/array glue   tests `isinstance(p, Number)`, `np.ndim(p) == 0`, `np.isscalar(p)` on an argument are accepted only
+                      when the scalar branch is the array branch on the 1-element array (`p = np.asarray([p])`,
+                      `return f(np.asarray([p]))[0]`, or the same code on the wrapped argument) and `v[0] if … else v`
+  try/except          `try: <reshape glue> except …: raise …` — the body; handlers that do not raise are refused
+  parameter aliases   `x = <tuple parameter>`, `x = <function parameter>`; the default of a function parameter may be
+                      substituted by an (expanded) helper, both paths are checked against spec["fun_params"]
+  np.array / np.asarray / np.atleast_1d of one value and np.asarray([x]) (1-element wrap): pointwise identity
+
 Complex variant (additive; spec keys "variant" + "complex_params", used by specs/em.py):
   a second translation `<name>_<variant>` of the same function in which the listed parameters are
   complex numbers.  A complex parameter p becomes the two real parameters `pre pim`; every
